@@ -367,28 +367,9 @@ func runC02(e *Engine, r *Report, tier string) {
 				r.Fail("R2", k, e.InstrPos(cs.Call), "the oracle a vote is recorded for is not the result of the bridger->oracle admission lookup")
 				continue
 			}
-			if ok2, _ := errorHandled(admCall); !ok2 {
-				r.Fail("R2", k, e.InstrPos(cs.Call), "the admission check's error is ignored")
-				continue
-			}
-			af := admCall.Common().StaticCallee()
-			// admission arg = claim.GetClaimer() of the same claim passed to recorder
-			okBr := false
-			for _, x := range admCall.Common().Args {
-				if recv, ok := methodCallOn(x, "GetClaimer"); ok {
-					for _, y := range cs.Call.Common().Args {
-						if SameExpr(recv, y, 5) {
-							okBr = true
-						}
-					}
-				}
-			}
-			r.Check(okBr, "R2", k+" bridger", e.InstrPos(admCall), "admission is checked for the claim's own bridger", "the bridger that is checked is not the bridger of the claim whose vote is recorded")
-			// inside af: success returns dominated by found(0x14), found(0x12), Online
-			for _, ret := range SuccessReturns(af) {
-				f14, f12, on := false, false, false
-				var idxCall *ssa.Call
-				for _, g := range GuardsOf(ret) {
+			// the guards an admission needs at a point: found(0x14), found(0x12), Online
+			admGuards := func(at ssa.Instruction) (f14, f12, on bool, idxCall *ssa.Call) {
+				for _, g := range GuardsOf(at) {
 					ci, ok := NormCond(g)
 					if !ok {
 						continue
@@ -409,6 +390,49 @@ func runC02(e *Engine, r *Report, tier string) {
 						}
 					}
 				}
+				return
+			}
+			if e.callDirectOp(admCall, cc, "14", "get") {
+				// the admission lookup is written out at the recording site: the same three guards must
+				// dominate the recording call, and the recorded oracle is the index entry by construction
+				okBr := false
+				for _, x := range admCall.Common().Args {
+					if recv, ok := methodCallOn(x, "GetClaimer"); ok {
+						for _, y := range cs.Call.Common().Args {
+							if SameExpr(recv, y, 5) {
+								okBr = true
+							}
+						}
+					}
+				}
+				r.Check(okBr, "R2", k+" bridger", e.InstrPos(admCall), "admission is checked for the claim's own bridger", "the bridger that is checked is not the bridger of the claim whose vote is recorded")
+				f14, f12, on, idxCall := admGuards(cs.Call)
+				ck := e.FnKey(cs.Caller)
+				r.Check(f14 && idxCall == admCall, "R2", ck+" bridger-index", e.InstrPos(cs.Call), "recording requires the bridger index entry (0x14)", "a vote is admitted without the bridger being registered")
+				r.Check(f12, "R2", ck+" oracle-record", e.InstrPos(cs.Call), "recording requires the oracle record (0x12)", "a vote is admitted without an oracle record")
+				r.Check(on, "R2", ck+" online", e.InstrPos(cs.Call), "recording requires Online", "an offline oracle can vote")
+				continue
+			}
+			if ok2, _ := errorHandled(admCall); !ok2 {
+				r.Fail("R2", k, e.InstrPos(cs.Call), "the admission check's error is ignored")
+				continue
+			}
+			af := admCall.Common().StaticCallee()
+			// admission arg = claim.GetClaimer() of the same claim passed to recorder
+			okBr := false
+			for _, x := range admCall.Common().Args {
+				if recv, ok := methodCallOn(x, "GetClaimer"); ok {
+					for _, y := range cs.Call.Common().Args {
+						if SameExpr(recv, y, 5) {
+							okBr = true
+						}
+					}
+				}
+			}
+			r.Check(okBr, "R2", k+" bridger", e.InstrPos(admCall), "admission is checked for the claim's own bridger", "the bridger that is checked is not the bridger of the claim whose vote is recorded")
+			// inside af: success returns dominated by found(0x14), found(0x12), Online
+			for _, ret := range SuccessReturns(af) {
+				f14, f12, on, idxCall := admGuards(ret)
 				r.Check(f14, "R2", e.FnKey(af)+" bridger-index", e.InstrPos(ret), "success requires the bridger index entry (0x14)", "a vote is admitted without the bridger being registered")
 				r.Check(f12, "R2", e.FnKey(af)+" oracle-record", e.InstrPos(ret), "success requires the oracle record (0x12)", "a vote is admitted without an oracle record")
 				r.Check(on, "R2", e.FnKey(af)+" online", e.InstrPos(ret), "success requires Online", "an offline oracle can vote")
